@@ -109,7 +109,7 @@ contract(M + 'IntegerSequence.get_next_point',
                            'result is not None and ipt(result) <= x))'},
          domain=[  # outside: known findings KF-C16-far-before-start, KF-C16-oneoff-excluded
              '(not has_step(self)) or ipt(point) >= startv(self) - stepv(self)',
-             'has_step(self) or not excluded(self, startv(self))'],
+             'has_step(self) or not excluded(self, startv(self)) or ipt(point) >= startv(self)'],
          props=['C16'])
 
 contract(M + 'IntegerSequence.get_next_point_on_sequence',
@@ -168,7 +168,6 @@ contract(M + 'IntegerSequence.get_first_point',
                            'and pts(self, ipt(result)))',
                   'least': 'forall(lambda x: implies(pts(self, x) and x >= ipt(point), '
                            'result is not None and ipt(result) <= x))'},
-         domain=['has_step(self) or not excluded(self, startv(self))'],   # KF-C16-oneoff-excluded
          props=['C16'])
 
 contract(M + 'IntegerSequence.get_start_point',
